@@ -251,7 +251,9 @@ Fixpoint zlist_eqb (a b : list Z) : bool :=
   | _, _ => false
   end.
 
-(* _load_spike_waveforms: None when a file is missing or np.load raises (logged) *)
+(* _load_spike_waveforms: None when a file is missing or np.load raises (logged).  The three arrays
+   keep the dimensions they were written with (as repaired on branch fix-c10b: the loader no longer
+   squeezes them, so a store of exactly one spike is one row, not a 0-d id and a 1-d channel row) *)
 Definition load_store (s : option subfiles) : option (store (A := Z)) :=
   match s with
   | None => None
